@@ -90,9 +90,10 @@ func (dec *Decoder) decodeBigInt(t reflect.Type, tag byte, p **big.Int) {
 	case TagNull:
 		*p = nil
 	case TagEmpty, TagFalse:
-		*p = bigIntZero
+		// a fresh value: the caller owns (and may change) what it gets
+		*p = big.NewInt(0)
 	case TagTrue:
-		*p = bigIntOne
+		*p = big.NewInt(1)
 	case TagInteger:
 		*p = big.NewInt(dec.ReadInt64())
 	case TagLong:
@@ -133,9 +134,9 @@ func (dec *Decoder) decodeBigFloat(t reflect.Type, tag byte, p **big.Float) {
 	case TagNull:
 		*p = nil
 	case TagEmpty, TagFalse:
-		*p = bigFloatZero
+		*p = big.NewFloat(0)
 	case TagTrue:
-		*p = bigFloatOne
+		*p = big.NewFloat(1)
 	case TagInteger:
 		*p = big.NewFloat(float64(dec.ReadInt64()))
 	case TagLong, TagDouble:
@@ -178,9 +179,9 @@ func (dec *Decoder) decodeBigRat(t reflect.Type, tag byte, p **big.Rat) {
 	case TagNull:
 		*p = nil
 	case TagEmpty, TagFalse:
-		*p = bigRatZero
+		*p = big.NewRat(0, 1)
 	case TagTrue:
-		*p = bigRatOne
+		*p = big.NewRat(1, 1)
 	case TagInteger:
 		*p = big.NewRat(dec.ReadInt64(), 1)
 	case TagLong:
